@@ -5,6 +5,7 @@ cd "$(dirname "$0")"
 export CARGO_NET_OFFLINE=true
 (cd atsa && cargo build --release --offline 2>&1 | tail -2)
 mkdir -p .cache evidence/violations
-./extract.sh .cache/setup-dev.json dev && rm -f .cache/setup-dev.json .cache/setup-dev.json.log
-./extract.sh .cache/setup-rel.json release && rm -f .cache/setup-rel.json .cache/setup-rel.json.log
+./extract.sh .cache/setup-dev.json dev
+./extract.sh .cache/setup-rel.json release
+rm -f .cache/setup-dev.json .cache/setup-dev.json.log .cache/setup-rel.json .cache/setup-rel.json.log
 echo setup-ok
